@@ -339,19 +339,21 @@ func (o OrderedCollectionPage) Equals(with Item) bool {
 				return nil
 			}
 		}
-		if w.Current != nil {
+		// NOTE(marius): the collection comparison above has looked at the ones both have: looking again would double
+		// the work at every level of a chain of pages
+		if w.Current != nil && o.Current == nil {
 			if !ItemsEqual(o.Current, w.Current) {
 				result = false
 				return nil
 			}
 		}
-		if w.First != nil {
+		if w.First != nil && o.First == nil {
 			if !ItemsEqual(o.First, w.First) {
 				result = false
 				return nil
 			}
 		}
-		if w.Last != nil {
+		if w.Last != nil && o.Last == nil {
 			if !ItemsEqual(o.Last, w.Last) {
 				result = false
 				return nil
